@@ -58,6 +58,11 @@ Definition rib := list dest.
 
 Inductive keying := ById | ByNet.
 
+(* what travels on the neighbour's event channel: a change of the RIB, or (since the fix of
+   C01-refresh-race) one route-refresh walk, i.e. the snapshot do_route_refresh asked for, taken
+   and queued under the shard lock (ToPeerEvent::RefreshWalk) *)
+Inductive event := EvChange (c : change) | EvWalk (cs : list change).
+
 (* ------------------------------------------------------------ small maps *)
 Definition key := (N * N)%type.
 Definition key_eqb (a b : key) : bool := (fst a =? fst b) && (snd a =? snd b).
@@ -149,7 +154,7 @@ Definition em_ids (id : N) (m : emap) : list N :=
 (* ------------------------------------------------------------ neighbour *)
 Record nbr := {
   n_reg : bool;                      (* event channel registered with the shard *)
-  n_chan : list change;              (* undelivered ToPeerEvent::NlriChange, oldest first *)
+  n_chan : list event;               (* undelivered ToPeerEvents, oldest first *)
   n_emap : emap;
   n_buf : list (key * E);            (* PendingTx.buffered: the initial dump, (prefix, wire path id) *)
   n_beor : bool;                     (* an End-of-RIB is among the buffered messages *)
@@ -192,6 +197,7 @@ Inductive label :=
 Section WithPolicy.
 Variable keying_ : keying.
 Variable limited : bool.
+Variable inline : bool.      (* do_route_refresh walks at once (the code before the fix) *)
 Variable max : N.            (* effective_max (>= 1) *)
 Variable aptx : bool.        (* PendingTx.addpath_tx / GroupedSink.addpath_tx *)
 Variable vis : path -> bool.
@@ -321,7 +327,7 @@ Definition flush_mirror (n : nbr) : list (key * E) :=
 (* ------------------------------------------------------------ steps *)
 Definition push (c : change) (n : nbr) : nbr :=
   if n_reg n then
-    {| n_reg := true; n_chan := n_chan n ++ [c]; n_emap := n_emap n; n_buf := n_buf n;
+    {| n_reg := true; n_chan := n_chan n ++ [EvChange c]; n_emap := n_emap n; n_buf := n_buf n;
        n_beor := n_beor n; n_ptx := n_ptx n; n_eor := n_eor n; n_mirror := n_mirror n |}
   else n.
 
@@ -366,11 +372,18 @@ Definition step (s : state) (l : label) : state :=
   | Deliver =>
       match n_chan n with
       | [] => s
-      | c :: rest =>
+      | EvChange c :: rest =>
           let st := process_change (polv (s_pv s)) (s_llgr s) c (n_emap n, SPtx (n_ptx n)) in
           with_nbr s {| n_reg := n_reg n; n_chan := rest; n_emap := fst st; n_buf := n_buf n;
                         n_beor := n_beor n; n_ptx := sink_ptx (snd st) (n_ptx n);
                         n_eor := n_eor n; n_mirror := n_mirror n |}
+      | EvWalk cs :: rest =>
+          (* run_select, RefreshWalk arm: apply_refresh_walk, then schedule_eor *)
+          let st := fold_left (fun a c => process_change (polv (s_pv s)) (s_llgr s) c a)
+                              (refresh_changes cs) (n_emap n, SPtx (n_ptx n)) in
+          with_nbr s {| n_reg := n_reg n; n_chan := rest; n_emap := fst st; n_buf := n_buf n;
+                        n_beor := n_beor n; n_ptx := sink_ptx (snd st) (n_ptx n);
+                        n_eor := true; n_mirror := n_mirror n |}
       end
   | Flush =>
       with_nbr s {| n_reg := n_reg n; n_chan := n_chan n; n_emap := n_emap n; n_buf := [];
@@ -384,12 +397,18 @@ Definition step (s : state) (l : label) : state :=
                     n_beor := true; n_ptx := ptx_empty; n_eor := false; n_mirror := [] |}
   | Refresh =>
       if n_reg n then
-        let st := fold_left (fun a c => process_change (polv (s_pv s)) (s_llgr s) c a)
-                            (refresh_changes (snapshot (s_rib s)))
-                            (n_emap n, SPtx (n_ptx n)) in
-        with_nbr s {| n_reg := true; n_chan := n_chan n; n_emap := fst st; n_buf := n_buf n;
-                      n_beor := n_beor n; n_ptx := sink_ptx (snd st) (n_ptx n);
-                      n_eor := true; n_mirror := n_mirror n |}
+        if inline then
+          let st := fold_left (fun a c => process_change (polv (s_pv s)) (s_llgr s) c a)
+                              (refresh_changes (snapshot (s_rib s)))
+                              (n_emap n, SPtx (n_ptx n)) in
+          with_nbr s {| n_reg := true; n_chan := n_chan n; n_emap := fst st; n_buf := n_buf n;
+                        n_beor := n_beor n; n_ptx := sink_ptx (snd st) (n_ptx n);
+                        n_eor := true; n_mirror := n_mirror n |}
+        else
+          (* TableManager::queue_refresh_walk: the snapshot goes to the channel tail *)
+          with_nbr s {| n_reg := true; n_chan := n_chan n ++ [EvWalk (snapshot (s_rib s))];
+                        n_emap := n_emap n; n_buf := n_buf n; n_beor := n_beor n;
+                        n_ptx := n_ptx n; n_eor := n_eor n; n_mirror := n_mirror n |}
       else s
   | Unregister => with_nbr s nbr0
   | PolicyChange v => {| s_rib := s_rib s; s_llgr := s_llgr s; s_pv := v; s_nbr := n |}
@@ -414,7 +433,7 @@ Arguments s_rib {E}. Arguments s_llgr {E}. Arguments s_pv {E}. Arguments s_nbr {
                      Some (token, llgr) otherwise. *)
 Definition CE := (N * N * N)%type.   (* (source, token, LLGR_STALE marker) *)
 
-Record cfg := { g_keying : keying; g_limited : bool; g_max : N; g_aptx : bool;
+Record cfg := { g_keying : keying; g_limited : bool; g_inline : bool; g_max : N; g_aptx : bool;
                 g_hidden : list N; g_rej : list N }.
 
 Definition cvis (g : cfg) (p : path) : bool := negb (memN (p_src p) (g_hidden g)).
@@ -427,7 +446,7 @@ Definition cpolv (g : cfg) (v : N) (llgr : bool) (net : N) (p : path) : option C
   if v =? 0 then cpol g llgr net p else Some (p_src p, p_tok p + 100, if llgr then 1 else 0).
 
 Definition cstep (g : cfg) : state CE -> label -> state CE :=
-  step CE (g_keying g) (g_limited g) (g_max g) (g_aptx g) (cvis g) (cpolv g).
+  step CE (g_keying g) (g_limited g) (g_inline g) (g_max g) (g_aptx g) (cvis g) (cpolv g).
 
 Fixpoint lex_leb (a b : list N) : bool :=
   match a, b with
@@ -479,10 +498,17 @@ Fixpoint rows_eqb (a b : list (list N)) : bool :=
   | _, _ => false
   end.
 
+Fixpoint ev_nets (l : list event) : list N :=
+  match l with
+  | [] => []
+  | EvChange c :: t => c_net c :: ev_nets t
+  | EvWalk _ :: t => 999 :: ev_nets t      (* a queued refresh walk, as a marker *)
+  end.
+
 (* mirror, from-scratch dump, prefixes with an undelivered change, mirror = dump *)
 Definition v_check (g : cfg) (s : state CE) : val :=
   VL [v_rows (map row_kv (n_mirror (s_nbr s))); v_rows (map row_kv (fresh_of g s));
-      VNs (map c_net (n_chan (s_nbr s)));
+      VNs (ev_nets (n_chan (s_nbr s)));
       VB (rows_eqb (sort_rows (map row_kv (n_mirror (s_nbr s))))
                    (sort_rows (map row_kv (fresh_of g s))))].
 
@@ -498,6 +524,13 @@ Fixpoint v_sets (g : cfg) (s : state CE) (rs : list (N * bool * bool * option N 
   | x :: t => let '(net, bc, ac, repl, paths) := x in
               v_set g s x :: v_sets g (cstep g s (RibSet net bc ac repl paths)) t
   end.
+
+(* End-of-RIB markers of one drained batch, each with the number of routes announced before
+   it: the one buffered with the initial dump follows the dump, the scheduled one
+   (PendingTx.pending_eor) comes last *)
+Definition eor_positions {E} (n : nbr E) : list N :=
+  (if n_beor n then [N.of_nat (length (n_buf n))] else []) ++
+  (if n_eor n then [N.of_nat (length (n_buf n) + length (t_reach (n_ptx n)))] else []).
 
 Definition observe1 (g : cfg) (s : state CE) (l : label) : val :=
   let s' := cstep g s l in
@@ -518,7 +551,7 @@ Definition observe1 (g : cfg) (s : state CE) (l : label) : val :=
   | Flush => VL [VN 3;
                  v_rows (map row_k (drained_unreach CE (n_ptx n)));
                  v_rows (map row_kv (n_buf n ++ drained_reach CE (n_ptx n)));
-                 VN ((if n_beor n then 1 else 0) + (if n_eor n then 1 else 0));
+                 VNs (eor_positions n);
                  v_check g s']
   | Register => VL [VN 4]
   | Refresh => VL [VN 5; VB (pending_empty n')]
